@@ -10,6 +10,29 @@ pub fn guard<T>(f: impl FnOnce() -> T) -> Option<T> {
     catch_unwind(AssertUnwindSafe(f)).ok()
 }
 
+/// Runs `f` while the current thread is unwinding from a panic (from the destructor of a guard
+/// that is dropped by the unwinding), as a shutdown guard of an application would; `None` if `f`
+/// itself panicked (which aborts nothing here: the second panic is caught inside the destructor).
+pub fn during_unwind<T>(f: impl FnOnce() -> T) -> Option<T> {
+    struct G<'a, T, F: FnOnce() -> T>(Option<F>, &'a std::cell::RefCell<Option<T>>);
+    impl<T, F: FnOnce() -> T> Drop for G<'_, T, F> {
+        fn drop(&mut self) {
+            if let Some(f) = self.0.take() {
+                // a panic inside a destructor that runs during unwinding would abort the process
+                if let Ok(v) = catch_unwind(AssertUnwindSafe(f)) {
+                    *self.1.borrow_mut() = Some(v);
+                }
+            }
+        }
+    }
+    let cell = std::cell::RefCell::new(None);
+    let _ = catch_unwind(AssertUnwindSafe(|| {
+        let _g = G(Some(f), &cell);
+        std::panic::resume_unwind(Box::new("harness: unwinding on purpose"));
+    }));
+    cell.into_inner()
+}
+
 pub fn pairs_str<K: EnrKey>(e: &Enr<K>) -> String {
     let v: Vec<String> = e
         .iter()
